@@ -398,6 +398,11 @@ class Walker:
         pq = self.q(t.left)
         if pq[0] != "pcount":
             return
+        short = any(isinstance(x, (ast.Continue, ast.Return, ast.Break)) for b in s.body for x in ast.walk(b))
+        if short and not any(isinstance(x, ast.Raise) for b in s.body for x in ast.walk(b)):
+            self.chk(s, "B6-shortcut-guard-space", f"zero-photon shortcut on a {pq[1]} count")
+            if pq[1] == "VIS" and not self.noheralds:
+                self.rep(s, "B6-shortcut-guard-space", "a computation is short-cut when the *visible* input holds no photon, but herald photons are inserted afterwards: for a circuit whose heralds carry photons the vacuum input still has non-trivial amplitudes")
         for b in s.body:
             for d in ast.walk(b):
                 if isinstance(d, ast.Dict) and len(d.keys) == 1 and isinstance(d.keys[0], ast.Call) and src(d.keys[0].func) == "State":
